@@ -120,7 +120,27 @@ def change_time_measure(rng, hint):
     return {"time_ago": np.sort(t).tolist(), "breakpoints": b.tolist(), "time_measure": m.tolist()}
 
 
-GENS = {"change_time_measure": change_time_measure, "fixed_changepoints": fixed_changepoints, "piecewise_point": piecewise_point, "reallocate_unphased": reallocate_unphased, "constrain_ages": constrain_ages, "damp": damp, "rescale": rescale}
+def relabel_mutations(rng, hint):
+    n_orig = int(rng.integers(2, 6))
+    extra = int(rng.integers(0, 3))
+    nn = n_orig + extra
+    order = list(range(n_orig)) + [int(rng.integers(0, n_orig)) for _ in range(extra)]
+    ne = int(rng.integers(0, 6))
+    left = np.sort(rng.integers(0, 5, size=ne)).astype(float)
+    right = left + rng.integers(1, 4, size=ne)
+    par = rng.integers(0, nn, size=ne)
+    chi = rng.integers(0, nn, size=ne)
+    ins = np.argsort(left, kind="stable")
+    rem = np.argsort(right, kind="stable")
+    nm = int(rng.integers(0, 6))
+    pos = np.sort(rng.random(nm) * 9.0)
+    mn = rng.integers(0, n_orig, size=nm)
+    return {"mutations_node": mn.tolist(), "mutations_position": pos.tolist(), "nodes_order": order,
+            "edges_parent": par.tolist(), "edges_child": chi.tolist(), "edges_left": left.tolist(),
+            "edges_right": right.tolist(), "insert_index": ins.tolist(), "remove_index": rem.tolist()}
+
+
+GENS = {"relabel_mutations": relabel_mutations, "change_time_measure": change_time_measure, "fixed_changepoints": fixed_changepoints, "piecewise_point": piecewise_point, "reallocate_unphased": reallocate_unphased, "constrain_ages": constrain_ages, "damp": damp, "rescale": rescale}
 
 
 def main():
